@@ -219,6 +219,7 @@ def r2(ctx, kind, fn, env):
     if sorted(names) != ["a", "p"]:
         raise Unestablished("gradient match is not on (target.data, prediction.data): %s" % names, c.loc(fn, m))
     spec = spec_grad(kind)
+    arms.guarded_arms(ctx, "R06.2", fn, m, kind)
     sems = {}
     for ra in arms.rank_arms(m, names):
         rank = ra["rank"]
@@ -242,7 +243,7 @@ def r2(ctx, kind, fn, env):
             ctx.bad("R06.2", inst, "arm-not-recognised-as-elementwise", where, "cannot establish aligned element-wise gradient: %s" % e)
             continue
         depth = {"Single": 1, "Triple": 3}.get(rank)
-        if depth is None or r.levels != depth or r.style != ["map"] * depth:
+        if depth is None or r.levels != depth or not set(r.style) <= {"map", "for"}:
             ctx.bad("R06.2", inst, "unexpected-traversal:%s" % "/".join(r.style), where, "")
             continue
         val = sem[0][1].get("<value>") if len(sem) == 1 and not sem[0][0] else None
